@@ -490,7 +490,7 @@ pub fn delayed(trace: &[Ev], by: usize) -> Vec<Ev> {
 	out
 }
 
-pub const MAX_EVENTS: usize = 40_000;
+pub const MAX_EVENTS: usize = 300_000;
 
 /// Correspondence-only cases with hand-made traces: boundary offsets around
 /// the document ends, for every (d, la) in a small grid.
